@@ -88,6 +88,9 @@ XIncludeLocation::prependPath(const XMLCh *baseToAdd){
     XMLString::copyNString(relativeHref, baseToAdd, lastSlash + 1);
     relativeHref[lastSlash + 1] = chNull;
     XMLString::catString(relativeHref, hrefPath);
+    /* "dir/../x" and "x" are the same resource: the inclusion history and the
+       self-inclusion test compare these strings */
+    XMLPlatformUtils::removeDotDotSlash(relativeHref);
 
     /* free the old reference */
     deallocate((void *)fHref);
